@@ -49,7 +49,7 @@ pub fn check_strict<B: StrictOps>(f: &P, tf: TF, loc: &mut Local) {
             loc.outcome(&(tf.recipe, r.nodes.len(), r.edges.len(), r.s.len(), r.t.len()));
         }
     }
-    if !f.edges.is_empty() && tf.n != [1, 1] {
+    if !f.edges.is_empty() && tf.n != [1, 1, 1] {
         loc.nontrivial_sub();
     }
 }
@@ -219,7 +219,7 @@ pub fn check_native(f: &P, tf: TF, loc: &mut Local) {
             }
         }
     }
-    if !f.nodes.is_empty() && tf.n != [1, 1] {
+    if !f.nodes.is_empty() && tf.n != [1, 1, 1] {
         loc.nontrivial_sub();
     }
     loc.outcome(&(tf.recipe, native_strict.nodes.len(), native_strict.edges.len()));
